@@ -13,7 +13,7 @@ prop(
     "values below/at/just above/far above the state, after legitimate histories of 0/1/10/1000 packets in each direction (plus random "
     "histories and log-uniform values), in the 1-RTT and the Initial space. Each probe is the wire bytes of the frames, parsed by the "
     "real FrameReader and dispatched in the order of qconnection/src/space/{initial,data}.rs + space.rs, in a grandchild process with "
-    "RLIMIT_AS 2 GiB / RLIMIT_CPU 20 s. Cost oracle: peak live allocation <= 64 KiB + 1 KiB*(b+n), CPU <= 50 ms + 20 us*(b+n) "
+    "RLIMIT_AS 2 GiB / RLIMIT_CPU 20 s. Cost oracle: peak live allocation <= 64 KiB + 1 KiB*(b+n), CPU <= 300 ms + 20 us*(b+n) "
     "(b = input bytes, n = packets/cids/streams held + advertised limits); values are first tried at 10^3/10^5/10^7 and the slope is "
     "recorded, larger values are only tried when that curve is flat. Error oracle: the outcome (accepted / dropped / ErrorKind) must "
     "be in the set RFC 9000 allows for that shape.",
